@@ -210,6 +210,8 @@ def generate(config, key=None, verbose=True):
             extra = parts[2] if len(parts) > 2 else "0"
             subprocess.run([sys.executable, os.path.join(cwd, "gen_fixtures.py"), os.path.join(cwd, "gen"), seed, extra],
                            check=True, capture_output=True)
+            subprocess.run([sys.executable, os.path.join(cwd, "gen_instrument.py"), os.path.join(cwd, "fx_instrument"), seed, extra],
+                           check=True, capture_output=True)
             if REPO != "/repo":
                 for dp, dn, fn in os.walk(cwd):
                     for f in fn:
